@@ -44,7 +44,8 @@ JudgeIO(e, Fr, Gr) ==
     [] e.op = "ReadCSV" ->
          LET v == ReadCsvOK(e.a.doc, e.a.conf, e.a.parse, e.obs)
              exp == CsvFrameSem(Denote(e.a.doc, e.a.conf.delim, v # "b"), e.a.conf, e.a.parse)
-             rtOK == e.a.rt < 0 \/ Fr[e.a.rt + 1].err \/ ObsMatches(NullRule(Fr[e.a.rt + 1], e.a.conf.emptynull), e.obs)
+             rtOK == e.a.rt < 0 \/ Fr[e.a.rt + 1].err \/ ~CsvRoundTripApplies(Fr[e.a.rt + 1], e.a.conf)
+                     \/ ObsMatches(NullRule(Fr[e.a.rt + 1], e.a.conf.emptynull), e.obs)
          IN IF v = "unspec" THEN [IORes(TRUE, FALSE, TRUE) EXCEPT !.newf = <<ErrFrame>>, !.newd = <<e.dig>>]
             ELSE IF v = "miss" THEN [IORes(TRUE, TRUE, FALSE) EXCEPT !.newf = <<ErrFrame>>, !.newd = <<e.dig>>]
             ELSE [IORes(v # "bad" /\ rtOK, FALSE, FALSE) EXCEPT !.newf = <<exp>>, !.newd = <<e.dig>>]
